@@ -220,9 +220,10 @@ CHECKS = {
              "C03_sort_permutes, C03_checker_decides (the table checker decides exactly 'all columns have the declared length, every index in range, prefix earlier'). Tied to "
              "fxprof-processed-profile by random API call sequences -> serde_json -> every table of every thread through the verified checker, walked stacks against supplied frames, thread references, "
              "id strings, thread order, counter thread indices, every marker's name and field values (static and runtime schemas), and the exact contents of the string / frame / func / resource / native-symbol tables "
-             "(with the frames' category / subcategory columns and the markers' category column), meta.categories and the used-library order against the model; a walked frame only equals a supplied one when its category, colour and subcategory names do.",
+             "(with the frames' category / subcategory columns and the markers' category column), meta.categories and the used-library order against the model; a walked frame only equals a supplied one when its category, colour and subcategory names and its frame flags do; stacks are also built with handle_for_stack_frames; "
+             "allocation samples are walked in the thread that holds them (open finding F-C03a: for a thread that is not the first of its process the stored stack index belongs to another thread's table).",
         note="Trusted: Coq kernel; harness h_fxprof; vlib/c03.py (catalogue of which JSON column indexes which table; frame content ids; expected address resolution). NOT yet modelled / proved: "
-             "JS frames / frame flags, kernel library mappings, allocation samples, counter sample columns (their ordering is C04), "
+             "kernel library mappings, allocation samples, counter sample columns (their ordering is C04), "
              "marker graphs and the schema JSON. For those parts the claim rests on the verified checker applied to sampled outputs, which is testing.",
         technique="Coq proof (interning and stack-table invariants, unique-suffix scheme, sort/translation contract, verified table checker) + correspondence run evaluated by vm_compute",
         category="proof",
